@@ -136,7 +136,7 @@ theorem rr_dispatch_takes_next_slot (w : W) (j : Job) (hr : w.cfg.router = .rr) 
 
 /-! ## Affinity (key-persistent routing) -/
 
-/-- (affinity, the part that is true of the code — `_partial`) With key-persistent routing (and, since the F11 fix,
+/-- (affinity, the part that is true of the code — `_partial`) With key-persistent routing (and, since the F13 fix,
 sticky routing: `hr` is `kp ∨ sq`), for
 every configuration and EVERY sequence of operations (dispatches, completions, expiry, shedding,
 worker failures and kills at any point incl. stale completions, pool growth and shrinkage,
@@ -366,7 +366,7 @@ theorem worker_job_is_booked_partial (c : CaseCfg) (steps : List Step) (hns : no
   obtain ⟨h1, p, hp, h2, h3, h4, _⟩ := ((j_always c steps hns).core hs).held_booked g hal hj
   exact ⟨h1, p, hp, h2, h3, h4⟩
 
-/-- (affinity, actor level — `_partial`) With key-persistent routing — and, since the F11 fix, with STICKY routing —,
+/-- (affinity, actor level — `_partial`) With key-persistent routing — and, since the F13 fix, with STICKY routing —,
 for every configuration and
 EVERY sequence of operations without a stale completion: two live worker actors never hold (run, or
 have in their mailbox) jobs of the same key at the same time — across pool growth and shrinkage,
@@ -418,18 +418,18 @@ example : noStaleRun (init f4Case) f4Steps = false := by decide +kernel
 /-- the prefix before the kill is a run the theorems speak about -/
 example : noStaleRun (init f4Case) (f4Steps.take 5) = true := by decide +kernel
 
-/-! F11 (fixed, repo b8c72a3): sticky routing put one key on two workers WITHOUT a stale completion. An idle worker is
+/-! F13 (fixed, repo b8c72a3): sticky routing put one key on two workers WITHOUT a stale completion. An idle worker is
 killed while the factory is held busy; the flush at the release hands job 5 (key 6) to it — the hand-over fails,
 the job is parked at the head of its queue, the slot has nothing in flight —, the router (which looked at the key
 IN FLIGHT only) sends job 6 (key 6) to another worker, then the replacement starts job 5. Real output before the fix:
-`release 3 → build=[2.2,1.3] start=[2:6:6,3:5:6]` (`corpus/C14/e-lts-f11_sticky_handover_to_dead_idle_worker.ops`,
+`release 3 → build=[2.2,1.3] start=[2:6:6,3:5:6]` (`corpus/C14/e-lts-f13_sticky_handover_to_dead_idle_worker.ops`,
 oracle clause `c14-key-on-two-workers`, not classified stale). Fix: the sticky router keeps a key with the worker that
 has it PENDING (in flight or queued). On the fixed model the witness satisfies the oracle, only the replacement runs
 key 6, job 6 waits behind it — and `key_never_on_two_workers_partial` now covers the sticky router. -/
-def f11Case : CaseCfg :=
+def f13Case : CaseCfg :=
   { cfg := { router := .sq, prioQueue := false, hasHandler := true, table := [], hasCC := true }, n := 2, disc := none, rl := none }
-def f11Info : Info := { router := .sq, prioQueue := false, hasHandler := true, n := 2, disc := none, rl := none }
-def f11Steps : List Step :=
+def f13Info : Info := { router := .sq, prioQueue := false, hasHandler := true, n := 2, disc := none, rl := none }
+def f13Steps : List Step :=
   [⟨.nop, 0, 2000000, 3000000⟩,
    ⟨.dispatch 1 1 0 none false, 3000000, 4000000, 5000000⟩, ⟨.dispatch 2 2 0 none false, 5000000, 6000000, 7000000⟩,
    ⟨.dispatch 3 5 0 none false, 7000000, 8000000, 9000000⟩, ⟨.dispatch 4 5 0 none false, 9000000, 10000000, 11000000⟩,
@@ -437,14 +437,14 @@ def f11Steps : List Step :=
    ⟨.finish 0 true, 15000000, 16000000, 17000000⟩, ⟨.finish 1 true, 17000000, 18000000, 19000000⟩,
    ⟨.block, 19000000, 101000000, 101000000⟩, ⟨.kill 1, 101000000, 102000000, 102000000⟩,
    ⟨.release 3, 102000000, 103000000, 104000000⟩]
-example : runningKeys ((init f11Case).runSteps f11Steps) = [(0, 5), (3, 6)] := by decide +kernel
-example : C14.routingOk f11Info ((init f11Case).runSteps f11Steps).env.log = true := by decide +kernel
-example : noStaleRun (init f11Case) f11Steps = true := by decide +kernel
+example : runningKeys ((init f13Case).runSteps f13Steps) = [(0, 5), (3, 6)] := by decide +kernel
+example : C14.routingOk f13Info ((init f13Case).runSteps f13Steps).env.log = true := by decide +kernel
+example : noStaleRun (init f13Case) f13Steps = true := by decide +kernel
 /-- the sticky worker's idle neighbour: after `finish 1 ok` two jobs wait in the factory queue while worker 1 is
 idle — sticky routing hands ONE job per completion to a worker (here to worker 0, which runs its key); C14 claims
 "no idle worker while a job waits" for the plain queuer only -/
-example : ((init f11Case).runSteps (f11Steps.take 9)).queue.length = 2 ∧
-    (((init f11Case).runSteps (f11Steps.take 9)).pool.map (·.isAvailable)) = [false, true] := by decide +kernel
+example : ((init f13Case).runSteps (f13Steps.take 9)).queue.length = 2 ∧
+    (((init f13Case).runSteps (f13Steps.take 9)).pool.map (·.isAvailable)) = [false, true] := by decide +kernel
 
 /-! F3 (fixed): key-persistent order after growing the pool from 0. On the fixed code the witness
 is handled in dispatch order and satisfies the oracle. -/
